@@ -115,7 +115,10 @@ class SFTPClient(BaseSFTP, ClosingContextManager):
         self.ultra_debug = False
         self.request_number = 1
         # lock for request_number
-        self._lock = threading.Lock()
+        # re-entrant: dropping the last reference to an abandoned SFTPFile while
+        # this lock is held (e.g. rebinding a local in _read_response) runs
+        # SFTPFile.__del__, which sends an async close from the same thread
+        self._lock = threading.RLock()
         self._cwd = None
         # request # -> SFTPFile
         self._expecting = weakref.WeakValueDictionary()
